@@ -43,6 +43,24 @@ def pair_paths(ck, prog, contract='pair'):
         # exactly: with the bit on, no other switch can produce the disabled error (covered above); with the bit off no Ok (above)
 
 
+def pair_direct_cw20_swap(ck, prog):
+    """a direct Swap message naming the pool's cw20 asset as the offer carries no tokens (cw20 offers arrive through the token's Send hook):
+    it must be refused in every switch state, and in particular cannot get around a disabled swap switch."""
+    kinds = KIND_CFGS['nc']
+    def body(it):
+        c = it.ctx
+        st = setup_pair(it, kinds, toggles=toggles_sym(c))
+        common_inv(c, st)
+        off = c.sym('offer', 128)
+        msg = it.mkv(XM, 'Swap', offer_asset=asset(it, 'cw20', 1, off), belief_price=NONE(), max_spread=SOME(DEC(c.sym('max_spread', 128))), to=NONE())
+        funds = [COIN(aname(kinds, 0), c.sym('attached', 128))] if c.branch(c.symbool('with_funds'), 'funds') else []
+        return enter(it, CP, 'execute', mk_env(it, 10**18), mk_info('trader', funds), msg)
+    for p in ck.explore(prog, body, 'pair.swap.direct_cw20'):
+        ck.sample(dict(entry='pair.execute(Swap) with a cw20 offer asset named directly', outcome=p.short()))
+        ck.oblige('C17.pair.swap.direct_cw20.refused', p, p.ok, 'a direct Swap naming a cw20 offer is refused whatever the switches say (no tokens were received)')
+        if not p.ok: ck.oblige('C17.pair.swap.direct_cw20.no_write', p, len(p.world.writes) != 0, 'and writes nothing')
+
+
 def vault_paths(ck, progv):
     tf, td, tw = z3.Bool('t_flash'), z3.Bool('t_deposit'), z3.Bool('t_withdraw')
     def tg(c): return (c.symbool('t_flash'), c.symbool('t_deposit'), c.symbool('t_withdraw'))
@@ -112,7 +130,7 @@ def instantiate_all_on(ck, prog, progv):
 def main():
     ck = Check('C17')
     prog = ck.program('terraswap_pair', 'white_whale_std'); progv = ck.program('vault', 'white_whale_std')
-    pair_paths(ck, prog); vault_paths(ck, progv); instantiate_all_on(ck, prog, progv)
+    pair_paths(ck, prog); pair_direct_cw20_swap(ck, prog); vault_paths(ck, progv); instantiate_all_on(ck, prog, progv)
     try:
         import c17_trio
         c17_trio.run(ck)
